@@ -10,6 +10,13 @@ package main
 //        submit B k:v k:v …   start batch B (1 or 2): PatchTreasures{Cap{status==active, M}, SET status on r<k>};
 //                             it stops at `cap.pre`
 //        step B               let B run to its next stop
+//        (init tokens: 1 active, 0 idle, - absent; every created record carries an expiry in the past, r0 oldest)
+//        submit B c=a|c=i k:v … the same with CreateIfNotExist and an InitialMsgpackOnCreate seed status=active / idle
+//        xsubmit B n          start batch B: PatchExpiredTreasures{HowMany n, SET status active, new expiry, Cap}; it stops at the
+//                             `pexp.selected` hook (after count+select, before the per-record patches), returns at once when it
+//                             selected nothing, or is `blocked` on capMu
+//        shift n              ShiftMatchingTreasures{KEY ASC, HowMany n, Filters status==idle, Cap}, synchronous (refused with
+//                             `busy` while a stopped batch holds capMu)
 // reply: <event> m=<records matching the filter now> mu=<free|held>
 //        event of `step`: mid | patch | done r=[P|X…] reached=<CapReached> | blocked (no progress while the
 //        other batch holds capMu — observed by absence of the next hook event); when a batch finishes
@@ -34,6 +41,7 @@ import (
 	"github.com/hydraide/hydraide/app/verifhook"
 	hydrapb "github.com/hydraide/hydraide/sdk/go/hydraidego/v3/hydraidepbgo"
 	"github.com/vmihailenco/msgpack/v5"
+	"google.golang.org/protobuf/types/known/timestamppb"
 )
 
 type c12Stop struct {
@@ -43,6 +51,8 @@ type c12Stop struct {
 
 type c12Batch struct {
 	n       int
+	expired bool // a PatchExpired call (one stop: pexp.selected)
+	xresp   *hydrapb.PatchExpiredTreasuresResponse
 	patches int
 	stop    *c12Stop // where it is stopped now (nil: running / blocked / done)
 	passed  int      // hooks passed so far: 0 = at pre
@@ -61,6 +71,7 @@ type c12World struct {
 	cap     int32
 	events  chan *c12Stop
 	passAll bool
+	xActive bool // a PatchExpired batch of this case is running
 	batches map[int]*c12Batch
 	holder  int // batch observed to have taken capMu (0: nobody)
 	broken  bool
@@ -76,6 +87,21 @@ func c12StatusFilter() *hydrapb.FilterGroup {
 }
 
 func (w *c12World) handler(hook string, args ...any) {
+	if hook == "pexp.selected" {
+		// PatchExpired between its count+select step and the per-record patches (no swamp identity in
+		// this hook: only the case's own calls run in this process)
+		w.mu.Lock()
+		pass := w.passAll || !w.xActive
+		w.mu.Unlock()
+		if pass {
+			return
+		}
+		n, _ := args[0].(int)
+		st := &c12Stop{name: "selected=" + strconv.Itoa(n), rel: make(chan struct{})}
+		w.events <- st
+		<-st.rel
+		return
+	}
 	if !strings.HasPrefix(hook, "cap.") || len(args) < 1 {
 		return
 	}
@@ -144,6 +170,12 @@ func c12Val(active bool) []byte {
 
 func (w *c12World) finish(b *c12Batch) string {
 	b.fin = true
+	if b.expired {
+		if b.err != nil || b.xresp == nil {
+			return "done error"
+		}
+		return fmt.Sprintf("done patched=%d reached=%v", len(b.xresp.GetPatched()), b.xresp.GetCapReached())
+	}
 	if b.err != nil || b.resp == nil {
 		return "done error"
 	}
@@ -156,6 +188,8 @@ func (w *c12World) finish(b *c12Batch) string {
 			r = append(r, "X")
 		case hydrapb.PatchResult_CREATED:
 			r = append(r, "C")
+		case hydrapb.PatchResult_KEY_NOT_FOUND:
+			r = append(r, "N")
 		default:
 			r = append(r, "?"+x.GetStatus().String())
 		}
@@ -165,7 +199,7 @@ func (w *c12World) finish(b *c12Batch) string {
 
 // advance waits for what a released batch does next: its next stop, its completion, or nothing.
 func (w *c12World) advance(b *c12Batch, other *c12Batch) string {
-	last := b.passed >= 2+b.patches // no hook left: the next thing is its return
+	last := b.passed >= 2+b.patches || b.expired // no hook left: the next thing is its return
 	short := other != nil && !other.fin && w.holder == other.n && !swamp.VerifCapMuFree(w.sw)
 	defer func() {
 		// who holds capMu now, by observation
@@ -199,6 +233,9 @@ func (w *c12World) advance(b *c12Batch, other *c12Batch) string {
 				other.stop = st
 				other.passed++
 				res += fmt.Sprintf(" unblocked=%d@%s", other.n, st.name)
+			case <-other.done:
+				other.blocked = false
+				res += fmt.Sprintf(" unblocked=%d@%s", other.n, w.finish(other))
 			case <-time.After(3 * time.Second):
 				w.timeout()
 				res += " unblocked-timeout"
@@ -253,7 +290,7 @@ func init() {
 }
 
 func genC12(rng *rand.Rand, tier string, w *bufio.Writer) {
-	cases := 120
+	cases := 90
 	if tier == "thorough" {
 		cases = 1500
 	}
@@ -261,25 +298,45 @@ func genC12(rng *rand.Rand, tier string, w *bufio.Writer) {
 	fmt.Fprintln(w, "case 0\ninit 1 0 0\nsubmit 1 0:1\nsubmit 2 1:1\nstep 1\nstep 2\nstep 1\nstep 1\nstep 2\nstep 2\nstep 2")
 	fmt.Fprintln(w, "case 1\ninit 2 1 0 0 1\nsubmit 1 0:1 1:0 3:0 2:1\nstep 1\nstep 1\nstep 1\nstep 1\nstep 1\nstep 1")
 	fmt.Fprintln(w, "case 2\ninit 2 0 0 0 0\nsubmit 1 0:1 1:1 2:1 3:1\nstep 1\nstep 1\nstep 1\nstep 1\nstep 1\nstep 1\nsubmit 2 0:0 2:1 3:1\nstep 2\nstep 2\nstep 2\nstep 2\nstep 2")
-	for c := 3; c < cases; c++ {
+	// creates: absent keys, seed matching / not matching the filter (cap 2: the third create must be rejected)
+	fmt.Fprintln(w, "case 3\ninit 2 0 - - - -\nsubmit 1 c=a 1:1 2:1 3:1 4:0 0:1\nstep 1\nstep 1\nstep 1\nstep 1\nstep 1\nstep 1\nstep 1\nsubmit 2 1:0 4:1 3:1\nstep 2\nstep 2\nstep 2\nstep 2\nstep 2")
+	// PatchExpired with the cap: B must wait for capMu until A's per-record patches are done
+	fmt.Fprintln(w, "case 4\ninit 2 0 0 0 0\nxsubmit 1 0\nxsubmit 2 0\nstep 1\nstep 2\nshift 3")
+	// PatchExpired against a PatchTreasures batch, HowMany below the budget, ShiftMatching bounded by the budget
+	fmt.Fprintln(w, "case 5\ninit 3 1 0 0 0 0\nxsubmit 1 1\nsubmit 2 2:1 3:1\nstep 2\nstep 2\nstep 1\nstep 2\nstep 2\nshift 5\nxsubmit 1 0")
+	for c := 6; c < cases; c++ {
 		fmt.Fprintf(w, "case %d\n", c)
-		n := 2 + rng.Intn(4)
+		n := 2 + rng.Intn(5)
 		m := 1 + rng.Intn(3)
 		var recs []string
 		active := 0
 		for i := 0; i < n; i++ {
-			v := 0
-			if active < m && rng.Intn(3) == 0 {
-				v = 1
+			v := "0"
+			switch {
+			case rng.Intn(5) == 0:
+				v = "-"
+			case active < m && rng.Intn(3) == 0:
+				v = "1"
 				active++
 			}
-			recs = append(recs, strconv.Itoa(v))
+			recs = append(recs, v)
 		}
 		fmt.Fprintf(w, "init %d %s\n", m, strings.Join(recs, " "))
 		left := [3]int{}
 		for b := 1; b <= 2; b++ {
+			if rng.Intn(3) == 0 {
+				fmt.Fprintf(w, "xsubmit %d %d\n", b, rng.Intn(3))
+				left[b] = 1
+				continue
+			}
 			p := 1 + rng.Intn(3)
 			var ps []string
+			switch rng.Intn(4) {
+			case 0:
+				ps = append(ps, "c=a")
+			case 1:
+				ps = append(ps, "c=i")
+			}
 			for i := 0; i < p; i++ {
 				v := 1
 				if rng.Intn(4) == 0 {
@@ -300,6 +357,9 @@ func genC12(rng *rand.Rand, tier string, w *bufio.Writer) {
 		}
 		// a batch that was reported `blocked` used up a step without moving
 		fmt.Fprintln(w, "step 1\nstep 2\nstep 1\nstep 2")
+		if rng.Intn(2) == 0 {
+			fmt.Fprintf(w, "shift %d\n", 1+rng.Intn(3))
+		}
 	}
 }
 
@@ -354,8 +414,16 @@ func runC12(in *bufio.Scanner, out *bufio.Writer) {
 			w.cap = int32(m)
 			var ps []*hydrapb.TreasurePatch
 			for i, v := range f[2:] {
-				ps = append(ps, &hydrapb.TreasurePatch{Key: c12Key(i), Ops: []*hydrapb.PatchOp{{Op: hydrapb.PatchOp_SET, Path: "status", Value: c12Val(v == "1")}}})
+				if v == "-" {
+					continue
+				}
+				// every record is expired, r0 longest ago
+				ps = append(ps, &hydrapb.TreasurePatch{Key: c12Key(i), Ops: []*hydrapb.PatchOp{{Op: hydrapb.PatchOp_SET, Path: "status", Value: c12Val(v == "1")}},
+					Meta: &hydrapb.PatchMeta{SetExpiredAt: timestamppb.New(time.Now().UTC().Add(-time.Duration(1000-i) * time.Hour))}})
 			}
+			// a sentinel that never matches anything keeps the swamp from being auto-destroyed when a shift empties it
+			keep, _ := msgpack.Marshal("keep")
+			ps = append(ps, &hydrapb.TreasurePatch{Key: "zz", Ops: []*hydrapb.PatchOp{{Op: hydrapb.PatchOp_SET, Path: "status", Value: keep}}})
 			_, err := rig.GW.PatchTreasures(ctx, &hydrapb.PatchTreasuresRequest{IslandID: 1, SwampName: w.swName.Get(), CreateIfNotExist: true, Patches: ps})
 			if err != nil {
 				fmt.Fprintln(out, "init error")
@@ -375,7 +443,13 @@ func runC12(in *bufio.Scanner, out *bufio.Writer) {
 				break
 			}
 			var ps []*hydrapb.TreasurePatch
+			create, seed := false, []byte(nil)
 			for _, kv := range f[2:] {
+				if strings.HasPrefix(kv, "c=") {
+					create = true
+					seed, _ = msgpack.Marshal(map[string]string{"status": map[string]string{"a": "active", "i": "idle"}[kv[2:]]})
+					continue
+				}
 				p := strings.SplitN(kv, ":", 2)
 				k, _ := strconv.Atoi(p[0])
 				ps = append(ps, &hydrapb.TreasurePatch{Key: c12Key(k), Ops: []*hydrapb.PatchOp{{Op: hydrapb.PatchOp_SET, Path: "status", Value: c12Val(len(p) > 1 && p[1] == "1")}}})
@@ -383,6 +457,7 @@ func runC12(in *bufio.Scanner, out *bufio.Writer) {
 			b := &c12Batch{n: bn, patches: len(ps), done: make(chan struct{})}
 			w.batches[bn] = b
 			req := &hydrapb.PatchTreasuresRequest{IslandID: 1, SwampName: w.swName.Get(), Patches: ps,
+				CreateIfNotExist: create, InitialMsgpackOnCreate: seed,
 				Cap: &hydrapb.Cap{Filter: c12StatusFilter(), MaxMatching: w.cap}}
 			go func() {
 				b.resp, b.err = rig.GW.PatchTreasures(ctx, req)
@@ -398,6 +473,74 @@ func runC12(in *bufio.Scanner, out *bufio.Writer) {
 				w.timeout()
 				fmt.Fprintf(out, "submit %d unexpected-timeout\n", bn)
 			}
+		case "xsubmit":
+			bn, err := strconv.Atoi(f[1])
+			if len(f) != 3 || err != nil || w.sw == nil || w.batches[bn] != nil || bn < 1 || bn > 2 {
+				fmt.Fprintln(out, "skip")
+				break
+			}
+			n, _ := strconv.Atoi(f[2])
+			b := &c12Batch{n: bn, expired: true, done: make(chan struct{})}
+			w.batches[bn] = b
+			other := w.batches[3-bn]
+			active, _ := msgpack.Marshal("active")
+			req := &hydrapb.PatchExpiredTreasuresRequest{IslandID: 1, SwampName: w.swName.Get(), HowMany: int32(n),
+				Ops:  []*hydrapb.PatchOp{{Op: hydrapb.PatchOp_SET, Path: "status", Value: active}},
+				Meta: &hydrapb.PatchMeta{SetExpiredAt: timestamppb.New(time.Now().UTC().Add(time.Hour))},
+				Cap:  &hydrapb.Cap{Filter: c12StatusFilter(), MaxMatching: w.cap}}
+			w.mu.Lock()
+			w.xActive = true
+			w.mu.Unlock()
+			short := other != nil && !other.fin && w.holder == other.n && !swamp.VerifCapMuFree(w.sw)
+			d := 3 * time.Second
+			if short {
+				d = 80 * time.Millisecond
+			}
+			go func() {
+				b.xresp, b.err = rig.GW.PatchExpiredTreasures(ctx, req)
+				close(b.done)
+			}()
+			res := ""
+			select {
+			case st := <-w.events:
+				b.stop = st
+				res = st.name
+				if w.holder == 0 && !swamp.VerifCapMuFree(w.sw) {
+					w.holder = bn
+				}
+			case <-b.done:
+				res = w.finish(b)
+			case <-time.After(d):
+				if short {
+					b.blocked = true
+					res = "blocked"
+				} else {
+					w.timeout()
+					res = "unexpected-timeout"
+				}
+			}
+			fmt.Fprintf(out, "xsubmit %d %s %s\n", bn, res, w.tail())
+		case "shift":
+			if len(f) != 2 || w.sw == nil {
+				fmt.Fprintln(out, "skip")
+				break
+			}
+			if !swamp.VerifCapMuFree(w.sw) {
+				fmt.Fprintln(out, "busy")
+				break
+			}
+			n, _ := strconv.Atoi(f[1])
+			p := "status"
+			resp, err := rig.GW.ShiftMatchingTreasures(ctx, &hydrapb.ShiftMatchingTreasuresRequest{IslandID: 1, SwampName: w.swName.Get(),
+				IndexType: hydrapb.IndexType_KEY, OrderType: hydrapb.OrderType_ASC, HowMany: int32(n),
+				Filters: &hydrapb.FilterGroup{Logic: hydrapb.FilterLogic_AND, Filters: []*hydrapb.TreasureFilter{{BytesFieldPath: &p,
+					Operator: hydrapb.Relational_EQUAL, CompareValue: &hydrapb.TreasureFilter_StringVal{StringVal: "idle"}}}},
+				Cap: &hydrapb.Cap{Filter: c12StatusFilter(), MaxMatching: w.cap}})
+			if err != nil || resp == nil {
+				fmt.Fprintf(out, "shift error %s\n", w.tail())
+				break
+			}
+			fmt.Fprintf(out, "shift %d shifted=%d reached=%v %s\n", n, len(resp.GetTreasures()), resp.GetCapReached(), w.tail())
 		case "step":
 			bn, _ := strconv.Atoi(f[1])
 			b := w.batches[bn]
